@@ -22,9 +22,9 @@ from props import c17_reuse as RU  # noqa: E402
 from props import c17_kernels as K  # noqa: E402
 from floatcmp import f2b, b2f  # noqa: E402
 
-GEN = ['BSF', 'KernF', 'CreditF', 'CreditP']
+GEN = ['BSF', 'KernF', 'CreditF', 'CreditP', 'CreditLoopR']
 PROPS = ['FinVerif.Props.C17a', 'FinVerif.Props.C17b', 'FinVerif.Props.C17c', 'FinVerif.Props.C17d', 'FinVerif.Props.C17e',
-         'FinVerif.Props.C17f']
+         'FinVerif.Props.C17f', 'FinVerif.Props.C17g']
 DRIVERS = ['FinVerif.Driver.C17']
 MEASURE = bool(os.environ.get('C17_MEASURE'))
 
@@ -100,7 +100,7 @@ class Meas:
 
 
 def run(ctx):
-    drivers_ok = C.lean_stage(ctx, GEN, PROPS, DRIVERS, extra_files=['FinVerif/Lemmas/C17.lean', 'FinVerif/Spec/C17.lean', 'FinVerif/Model/C17Inv.lean', 'FinVerif/Model/C17.lean'])
+    drivers_ok = C.lean_stage(ctx, GEN, PROPS, DRIVERS, extra_files=['FinVerif/Lemmas/C17.lean', 'FinVerif/Lemmas/C17Loop.lean', 'FinVerif/Spec/C17.lean', 'FinVerif/Model/C17Inv.lean', 'FinVerif/Model/C17.lean'])
     C.import_financepy()
     import numpy as np
     from financepy.models import loss_dbn_builder as LB
